@@ -48,6 +48,7 @@ def run(ctx):
     ctx.do(rule_step_quoting)
     ctx.do(rule_token_domain)
     ctx.do(rule_float_literal_form)
+    ctx.do(rule_hex_literal_form)
     ctx.do(rule_path_step_kinds)
     from .hidden_state import rule_no_hidden_state
     ctx.do(rule_no_hidden_state, "C10.history-independence")
@@ -487,6 +488,56 @@ def rule_step_quoting(ctx):
                       expected="quote unless the step matches %s" % spec["IdentifierWithoutHyphen"], found=conds)
     else:
         run.ok(R, c)
+    # keywords: an identifier-shaped step that spells a keyword token of the grammar (NOT, IN, true, START, ...) cannot be written
+    # bare either.  The set consulted by the quoting test must contain every alphabetic literal token of both grammars (read
+    # from the generated parsers).
+    kws = set()
+    for ver in ("2.0", "2.1"):
+        for lit in grammar(ver)["literals"]:
+            w = lit.strip("'")
+            if w.isalpha():
+                kws.add(w)
+    consulted = set()
+    for t_, pol, ifn in [g_ for r in returns_of(fi) for g_ in guard_chain(r)]:
+        for cmp_ in [x for x in ast.walk(t_) if isinstance(x, ast.Compare) and len(x.ops) == 1 and isinstance(x.ops[0], (ast.In, ast.NotIn))]:
+            try:
+                v = ev.eval(cmp_.comparators[0], fi.scope)
+            except AnalysisError:
+                continue
+            if isinstance(v, (list, tuple, set, frozenset)) or hasattr(v, "__iter__") and not isinstance(v, str):
+                try:
+                    consulted |= {x for x in v if isinstance(x, str)}
+                except TypeError:
+                    pass
+    missing = sorted(kws - consulted)
+    run.check(not missing, R, key(rel, fi.qualname, "quotes-keywords"),
+              "a path step that spells a keyword of the pattern grammar is printed bare: [file:extensions.'NOT' = 1] prints as "
+              "[file:extensions.NOT = 1], which does not parse (keywords not quoted: %s)" % ", ".join(missing[:8]), file=rel,
+              line=fi.node.lineno, function=fi.qualname, expected="quote when the step is one of %s" % sorted(kws),
+              found="set consulted: %s" % sorted(consulted))
+    # what is put between the quotes is escaped (a key containing ' or \\ would otherwise end the literal early)
+    quoting = [r for r in returns_of(fi) if isinstance(r.value, (ast.BinOp, ast.JoinedStr)) or (
+        isinstance(r.value, ast.Call) and "format" in norm(r.value))]
+    esc = bool(quoting) and all(any(isinstance(c_, ast.Call) and call_simple_name(c_) == "escape_quotes_and_backslashes"
+                                    for c_ in ast.walk(r.value)) for r in quoting)
+    run.check(esc, R, key(rel, fi.qualname, "escapes-inside-quotes"),
+              "a quoted path step is written without escaping: a key containing a quote or a backslash (built from the model "
+              "classes) prints to text that does not parse", file=rel, line=fi.node.lineno, function=fi.qualname,
+              expected="\"'\" + escape_quotes_and_backslashes(step) + \"'\"", found=[short(r.value) for r in quoting])
+    # escape symmetry: a path component holds the key ITSELF.  A quoted step taken from a pattern arrives as raw, still escaped
+    # text (StringConstant with needs_to_be_quoted False); it is unescaped once when the component is made, because the
+    # printer escapes once.  Passing .value through unchanged doubles every escape on the next print.
+    cc = prog.cls(PAT + "::_ObjectPathComponent").methods.get("create_ObjectPathComponent")
+    if cc is None:
+        raise AnalysisError("anchor missing: _ObjectPathComponent.create_ObjectPathComponent")
+    br = [n_ for n_ in body_walk(cc.node) if isinstance(n_, ast.If) and "isinstance(" in norm(n_.test) and "StringConstant" in norm(n_.test)]
+    oku = bool(br) and any(isinstance(x, ast.If) and "needs_to_be_quoted" in norm(x.test) and any(
+        isinstance(c_, ast.Call) and (norm(c_.func) in ("re.sub",) or (isinstance(c_.func, ast.Attribute) and c_.func.attr == "replace"))
+        for b_ in x.body for c_ in ast.walk(b_)) for s_ in br[0].body for x in ast.walk(s_))
+    run.check(oku or not esc, R, key(rel, "_ObjectPathComponent.create_ObjectPathComponent", "raw-text-unescaped-once"),
+              "the printer escapes quoted steps, but a quoted step taken from a pattern is stored as the raw (still escaped) text: "
+              "every print doubles its backslashes -- [a:b.'it\\'s' = 1] is not a fixed point", file=rel, line=cc.node.lineno,
+              function="create_ObjectPathComponent", expected="unescape once when needs_to_be_quoted is False", found=short(cc.node, 200))
     # components print through quote_if_needed
     for cname in ("_ObjectPathComponent", "ListObjectPathComponent"):
         k = prog.cls("%s::%s" % (PAT, cname))
@@ -565,6 +616,38 @@ def rule_token_domain(ctx):
                       file=cls.module.relpath, line=init.node.lineno, function=cname, expected="accepts %s" % sorted(produced),
                       found="accepts %s" % sorted(accepted))
     run.floor(R, 6)
+
+
+def rule_hex_literal_form(ctx):
+    """HexLiteral of the grammar is  h ' (two hex digits)* '  -- the EMPTY literal h'' included.  The regex HexConstant applies to
+    a literal coming from the parse tree must admit that whole language (regex language inclusion, sa/regexnfa.py)."""
+    from .. import regexnfa
+    from ..tableeval import Evaluator
+    run = ctx.run
+    prog = ctx.prog
+    R = "C10.hex-literal-form"
+    init = prog.cls(PAT + "::HexConstant").methods.get("__init__")
+    if init is None:
+        raise AnalysisError("anchor missing: HexConstant.__init__")
+    ev = Evaluator(prog, allow_dyn=True)
+    pats = []
+    for c in body_walk(init.node):
+        if isinstance(c, ast.Call) and isinstance(c.func, ast.Attribute) and c.func.attr in ("match", "fullmatch") and norm(c.func.value) == "re" and c.args:
+            try:
+                p_ = ev.eval(c.args[0], init.scope)
+            except AnalysisError:
+                continue
+            if isinstance(p_, str) and "h" in p_:
+                pats.append((p_, c))
+    if not pats:
+        raise AnalysisError("HexConstant: the regex for h'..' literals was not found")
+    ref = "h'([a-fA-F0-9]{2})*'"
+    for p_, c in pats:
+        w = regexnfa.pattern_included(ref, p_, 0, 0, "fullmatch", c.func.attr)
+        run.check(w is None, R, key(init.module.relpath, "HexConstant.__init__", "admits-every-hex-literal"),
+                  "HexConstant refuses a hexadecimal literal the grammar allows: a valid pattern cannot be parsed into the model",
+                  file=init.module.relpath, line=c.lineno, function="HexConstant.__init__", expected="L(%s) subset of L(code)" % ref,
+                  found="pattern %r refuses %r" % (p_, w))
 
 
 def rule_float_literal_form(ctx):
